@@ -122,6 +122,7 @@ Proof.
     + destruct (ev_apply_body c m1 (length (ops m)) oi (nth s (sts m) dflt_s)) as [m2 evb] eqn:Eb. cbn [fst].
       pose proof (apply_body_StInv R c m1 (length (ops m)) oi (nth s (sts m) dflt_s) F H1) as G.
       rewrite Eb, Es in G; auto.
+  - cbn [fst]. apply StInv_add_state; auto. apply fresh_state_cells; auto.
 Qed.
 
 (* ------------------------------------------------------------------ domains *)
@@ -177,6 +178,7 @@ Proof.
     + destruct (ev_apply_body c m1 (length (ops m)) oi (nth s (sts m) dflt_s)) as [m2 evb] eqn:Eb. cbn [fst].
       pose proof (apply_body_doms c m1 (length (ops m)) oi (nth s (sts m) dflt_s)) as G. rewrite Eb in G.
       cbn [fst] in G; congruence.
+  - left; auto.
 Qed.
 
 Lemma step_DomInv : forall c m p, fix18 c = true -> DomInv m -> DomInv (fst (step c m p)).
@@ -213,7 +215,7 @@ Proof.
   intros m HD HS. unfold separated. apply forallb_forall. intros v Hv.
   apply forallb_forall. intros l Hl. apply owner_eqb_eq.
   unfold values in Hv. destruct Hv as [<-|Hv].
-  - simpl in Hl. destruct Hl as [<-|[]]. reflexivity.
+  - simpl in Hl. destruct Hl as [<-|[<-|[]]]; reflexivity.
   - apply in_app_or in Hv as [Hv|Hv]; apply in_map_iff in Hv as [i [<- Hi]]; apply in_seq in Hi; simpl in Hi.
     + simpl in Hl. unfold dom_cells in Hl. rewrite HD in Hl by lia.
       destruct Hl as [<-|[<-|Hl]]; auto. apply in_map_iff in Hl as [j [<- _]]. reflexivity.
